@@ -416,3 +416,29 @@ fn bounds_contract() {
     let r = bounds(rest_of(n, a, b), "vector-copy", 4, &v);
     bounds_spec(r, n, a, b, len);
 }
+
+/// (immutable-vector-set v i x) with ANY index: an index inside the vector updates exactly that element,
+/// an index at or beyond the length is an error value (never a panic of the host), shared or not
+#[kani::proof]
+#[kani::unwind(6)]
+fn vector_set_index_total() {
+    let shared: bool = kani::any();
+    let i: usize = kani::any();
+    let g = Gc::new(vec2());
+    let alias = if shared { Some(g.clone()) } else { None };
+    let mut arg = SteelVal::VectorV(SteelVector(g));
+    let r = immutable_vector_set(&mut arg, i, iv(77));
+    match r {
+        Ok(SteelVal::VectorV(SteelVector(res))) => {
+            assert!(i < 2, "an index beyond the vector was accepted");
+            let mut want = vec2();
+            want.set(i, iv(77));
+            assert!(*res == want);
+        }
+        Ok(_) => assert!(false),
+        Err(_) => assert!(i >= 2, "a valid index was rejected"),
+    }
+    if let Some(a) = &alias {
+        assert!(**a == vec2(), "another holder of the vector observes the update");
+    }
+}
